@@ -60,6 +60,10 @@ def cases(seed, tier):
             p['key'].append('rsa-sha2-512')
         if rng.random() < 0.4 and 'ssh-rsa-cert-v01@openssh.com' not in p['key']:
             p['key'].insert(0, 'ssh-rsa-cert-v01@openssh.com')
+        r5 = gen.case_rng(seed, ID, i, 'edcert')
+        edcert = r5.random() < 0.25 and 'ssh-ed25519-cert-v01@openssh.com' not in p['key']
+        if edcert:
+            p['key'].insert(r5.randrange(len(p['key']) + 1), 'ssh-ed25519-cert-v01@openssh.com')
         p['keys'] = gen.rand_keys(rng, p['key'])
         if rng.random() < 0.5 and not any(g in p['kex'] for g in gen.GEX):
             p['kex'].append('diffie-hellman-group-exchange-sha256')
@@ -68,6 +72,8 @@ def cases(seed, tier):
         if not any(k in gen.PROBE_KEX for k in p['kex']):
             p['kex'].insert(0, 'curve25519-sha256')
         perts = rng.sample(PERT, rng.randrange(2, 5))
+        if edcert:
+            perts = perts + [r5.choice(['ca_type_ed', 'ca_size_ed'])]
         r4 = gen.case_rng(seed, ID, i, 'empty')
         if r4.random() < 0.06:
             # an AEAD-only peer with empty MAC name-lists: the policy made from it covers that (empty) list too
@@ -149,6 +155,19 @@ def perturb(rng, prof, kind):
         if p['gex']['sizes'][0] not in (1024, 1536, 3072, 4096):
             p['gex']['style'] = 'roundup'      # a size off the probe grid can only be measured on a server that rounds requests up to what it has
         return p, 'dh'
+    if kind in ('ca_type_ed', 'ca_size_ed'):
+        spec = p.get('keys', {}).get('ssh-ed25519-cert-v01@openssh.com')
+        if not spec or 'ssh-ed25519-cert-v01@openssh.com' not in p['key']:
+            return None
+        if kind == 'ca_size_ed':
+            if spec.get('ca_type') != 'ssh-rsa':
+                return None
+            spec['ca_bits'] = rng.choice([b for b in (1024, 2048, 3072, 4096) if b != spec['ca_bits']])
+            return p, 'casize'
+        spec['ca_type'] = 'ssh-rsa' if spec.get('ca_type') != 'ssh-rsa' else 'ssh-ed25519'
+        if spec['ca_type'] == 'ssh-rsa':
+            spec['ca_bits'] = 3072
+        return p, 'catype'
     if kind == 'fill_empty':
         if p.get('mac'):
             return None
